@@ -83,6 +83,14 @@ func genStr(rt *rapid.T, label string, maxPieces int) Str {
 	// raw string spelling where Go allows it
 	if utf8.ValidString(content) && !strings.ContainsAny(content, "`\r\ufeff\x00") && rx.Chance(rt, label+"raw", 1, 5) {
 		full = "`" + content + "`"
+		if len(content) > 0 && rx.Chance(rt, label+"cr", 1, 3) {
+			// carriage returns inside a raw string literal are discarded from its value (a script saved with CRLF line ends)
+			at := rx.Uniform(rt, len(content)+1, label+"crat")
+			for !utf8.RuneStart(append([]byte(content), 'x')[at]) {
+				at--
+			}
+			full = "`" + content[:at] + "\r" + content[at:] + "`"
+		}
 	}
 	if got, err := strconv.Unquote(full); err != nil || got != content {
 		// e.g. "\x41" followed by a digit is fine, but be safe: fall back to the all-hex spelling
@@ -117,6 +125,9 @@ func twin(lit string) (other string, content string, ok bool) {
 			return "", "", false
 		}
 		return "`" + inner + "`", inner, true
+	}
+	if strings.Contains(inner, "\r") {
+		return "", "", false
 	}
 	other = `"` + inner + `"`
 	got, err := strconv.Unquote(other)
@@ -364,6 +375,9 @@ func TestStrings(t *testing.T) {
 		}
 		if strings.HasPrefix(c.A.Lit, "`") {
 			r.Class("A_raw_string_literal")
+			if strings.Contains(c.A.Lit, "\r") {
+				r.Class("A_raw_string_literal_with_carriage_return")
+			}
 		}
 		if strings.Contains(c.A.Lit, `\`) {
 			r.Class("A_literal_with_escapes")
